@@ -423,3 +423,33 @@ pub fn acc_lat(_p: &ParsedParameters, _i: usize) -> f64 {
 pub fn acc_lon(_p: &ParsedParameters, _i: usize) -> f64 {
     unsafe { ACC_LON }
 }
+
+// ---- S-GRID-SEQ: a grid answering arbitrarily PER CALL (a real grid is a function of the
+// position, and the inverse gridshift iteration looks up a different position every round:
+// it may find the first and lose a later one - "wandering off the grid").
+pub static mut SEQ_CALLS: usize = 0;
+#[derive(Debug)]
+pub struct SeqGrid {
+    pub nbands: usize,
+    pub hit: [bool; 24],
+    pub value: Coor4D,
+}
+impl Grid for SeqGrid {
+    fn bands(&self) -> usize {
+        self.nbands
+    }
+    fn contains(&self, _coord: &Coor4D, _margin: f64) -> bool {
+        true
+    }
+    fn at(&self, _coord: &Coor4D, _margin: f64) -> Option<Coor4D> {
+        unsafe {
+            let k = SEQ_CALLS;
+            SEQ_CALLS += 1;
+            if k < 24 && self.hit[k] {
+                Some(self.value)
+            } else {
+                None
+            }
+        }
+    }
+}
